@@ -25,7 +25,7 @@ def chunks(l, n):
     return [l[i:i + n] for i in range(0, len(l), n)]
 
 
-def streams(seed, tier):
+def base_streams(seed, tier):
     rng = random.Random(seed)
     names = model_names()
     out = []
@@ -105,3 +105,26 @@ LEVEL_TEXT = ("Machine-checked theorems for every build profile, every instructi
               "Tie to the code: random printable programs and stacks are printed by the real to_string, parsed by the real parser and compared structurally and textually, on both build profiles, against the extracted model; programs outside the class are run for model agreement only.")
 LEVEL_NOTE = ("Trusted: Coq kernel, extraction, ocaml/driver.ml, the Rust harness and generators; all theorems closed under the global context. "
               "The float scalar law is an explicit premise of the two _partial theorems, not an axiom; its evidence is the sweep (quick 20k, thorough 240k bit patterns incl. every exponent), i.e. a test of format!/parse::<f32>, not a proof.")
+
+
+def sweep_stream(seed, tier):
+    """the scalar float law  fmt3(parse(fmt3 x)) = fmt3 x  enumerated on the implementation"""
+    from vcheck import sx_str
+    if tier == "thorough":
+        step = 1 << 24
+        cases = [sx_str([1, [], lo, lo + step]) for lo in range(0, 1 << 32, step)]
+        note = "EXHAUSTIVE: all 2^32 f32 bit patterns in 256 ranges, natively in the release binary: format {:.3} -> parse -> format {:.3} reproduces the text"
+    else:
+        rng = random.Random(seed + 5)
+        step = 1 << 20
+        starts = sorted(set([0, 0x7f000000, 0x7f800000 - step, 0x80000000, 0xff800000 - step, 0x3f000000, 0x3a000000, 0x4b000000] +
+                            [rng.randrange(0, (1 << 32) - step) for _ in range(24)]))
+        cases = [sx_str([1, [], lo, lo + step]) for lo in starts]
+        note = "32 ranges of 2^20 consecutive bit patterns (around 0, 0.5, 2^23, the largest finite values, both signs, plus random ranges), natively in the release binary"
+    st = Stream("float-scalar-law-sweep", "f32sweep", None, cases, note)
+    st.per_shard = 1          # heavy cases: one per worker slot
+    return [st]
+
+
+def streams(seed, tier):
+    return base_streams(seed, tier) + sweep_stream(seed, tier)
